@@ -18,6 +18,7 @@ package coins
 //@   trusted
 //@   ensures (result != nil) <==> (id == 0 || coinExists(c, id))
 //@   ensures result != nil ==> coinIDOf(result) == id
+//@   ensures id != 0 ==> result == coinModel(c, id)
 //@   # the record's accessors return the module's views of that coin (definition of the views, C02)
 //@   ensures result != nil && id != 0 ==> coinVol(result) == coinVolume(c, id) && coinRes(result) == coinReserve(c, id) && coinMax(result) == coinMaxOf(c, id)
 //@   modifies coinsCache
@@ -94,7 +95,7 @@ package coins
 //@ func (*Coins).AddVolume
 //@   trusted
 //@   requires amount != nil
-//@   requires [C02] supply: id != 0 ==> coinVolume(c, id) + amount.val <= coinMaxOf(c, id)
+//@   requires [C02,C22] supply: id != 0 ==> coinVolume(c, id) + amount.val <= coinMaxOf(c, id)
 //@   ensures id != 0 ==> coinVolume(c, id) == old(coinVolume(c, id)) + old(amount.val) && ledgerVolume(c.bus.checker, id) == old(ledgerVolume(c.bus.checker, id)) + old(amount.val)
 //@   modifies coinVolume(c, id), ledgerVolume(c.bus.checker, id), coinsCache
 //@ func (*Coins).AddVolume #record
@@ -134,3 +135,51 @@ package coins
 //@   ensures reported: id != 0 ==> ledgerDelta(c.bus.checker, 0) == old(ledgerDelta(c.bus.checker, 0)) + old(amount.val)
 //@   ensures basecoin: id == 0 ==> ledgerDelta == old(ledgerDelta)
 //@   modifies ledgerDelta(c.bus.checker, 0), coinsCache, coinsDirtyMarks, id != 0 ? m.info.Reserve.val : nothing, id != 0 ? m.info.isDirty : nothing
+
+//@ # ---------------------------------------------------------------- ticker ownership (C22, C05)
+//@ # symInfoOf(c, sym): the ownership record of a ticker (nil: the ticker has no owner - e.g. pool tokens).
+//@ # ASSUMED representation axiom for the lazily loading getter.
+//@ ghost symInfoOf(c *Coins, sym types.CoinSymbol) *SymbolInfo
+//@ func (*Coins).GetSymbolInfo
+//@   trusted
+//@   ensures result == symInfoOf(c, symbol)
+//@   # state invariant (assumed): an ownership record always names an owner (records are only created with one)
+//@   ensures result != nil ==> result.COwnerAddress != nil
+//@   modifies coinsCache
+//@ # ASSUMED: the record's plain accessors return the record's fields, named by these views
+//@ ghost modelSymbol(m *Model) types.CoinSymbol
+//@ ghost modelVersion(m *Model) int
+//@ ghost modelMintable(m *Model) bool
+//@ func (*Model).Symbol
+//@   trusted
+//@   ensures result == modelSymbol(m)
+//@   modifies nothing
+//@ func (*Model).Version
+//@   trusted
+//@   ensures result == modelVersion(m)
+//@   modifies nothing
+//@ func (*Model).IsMintable
+//@   trusted
+//@   ensures result == modelMintable(m)
+//@   modifies nothing
+
+//@ # ---------------------------------------------------------------- coin creation (C22)
+//@ # symTaken(c, sym): the ticker is in use by a current (version 0) coin. ASSUMED summaries of the registry updates;
+//@ # their preconditions - a fresh id and a free ticker - are proved at the call sites in the creating transactions.
+//@ ghost symTaken(c *Coins, sym types.CoinSymbol) bool
+//@ func (*Coins).ExistsBySymbol
+//@   trusted
+//@   ensures result <==> symTaken(c, symbol)
+//@   modifies coinsCache
+//@ func (*Coins).CreateToken
+//@   trusted
+//@   requires c != nil && c.bus != nil && initialAmount != nil && maxSupply != nil
+//@   requires [C22] freshid: id != 0 && !coinExists(c, id)
+//@   requires [C22] freeticker: !symTaken(c, symbol)
+//@   ensures coinExists(c, id) && symTaken(c, symbol)
+//@   ensures coinVolume(c, id) == old(initialAmount.val) && coinMaxOf(c, id) == old(maxSupply.val)
+//@   ensures ledgerVolume(c.bus.checker, id) == old(ledgerVolume(c.bus.checker, id)) + old(initialAmount.val)
+//@   modifies coinExists(c, id), symTaken(c, symbol), coinVolume(c, id), coinMaxOf(c, id), coinModel(c, id), symInfoOf(c, symbol), ledgerVolume(c.bus.checker, id), coinsCache
+//@ func (*Coins).GetCoinBySymbol
+//@   trusted
+//@   modifies coinsCache
